@@ -42,7 +42,7 @@ def work(args):
     b = bytes.fromhex(c["ok"])
     key = "key_" + signing.MATCHING_KEY[alg]
     with tempfile.TemporaryDirectory(prefix="verif_c04_") as d:
-        res, recs = signing.run_sign("single-level", b, d, key_name=key, key_id=key_id, alg=alg, action="error")
+        res, recs = signing.run_sign("single-level", b, d, key_name=key, key_id=key_id, alg=alg, action="error", in_place=(index % 5 == 2))
     out = {"hash": hashlib.sha1(b + alg.encode() + str(key_id).encode()).hexdigest(), "alg": alg, "key_id": key_id, "problems": [], "mismatch": None,
            "seed": seed, "index": index}
     model = drv.call({"op": "sign.single", "file": b.hex(), "alg": alg, "key_name": key, "key_id": key_id, "action": "error", "table": recs})
@@ -180,6 +180,9 @@ def run(tier: str, seed: int) -> int:
     drv = common.Driver()
     rs_cases(drv, res)
     cli_cases(res, drv, tier)
+    from .. import reuse
+    desc0, files0, _ = suitcases.make_case(777, 3, depth=0)
+    reuse.signer_reuse(res, bytes.fromhex(suitcases.run_impl_create(strip_blocks(desc0), files0)["ok"]), PROP)
     drv.close()
     return finish(res, st, RULE, NOTE)
 
